@@ -237,11 +237,18 @@ Definition wf_kb (ids : list rid) (shape : option (list Z)) (d : Z) (t : atree) 
 Definition coord_ok (s lo hi c : Z) : bool :=
   (0 <=? c) && (c <? s) && (lo <=? c) && (c <? hi).
 
-Definition fiber_ok (idv dv : V) (s e : Z) (cs : list Z) (fo : V) : bool :=
+(* the active range a joined fiber reports: the one it was constructed with, else the one
+   derived from its rank's shape — not from anything the fiber had before it joined *)
+Definition expect_active (s : Z) (f : atree) : Z * Z :=
+  match f with ANode _ (Some a) _ => a | _ => (0, s) end.
+
+Definition fiber_ok (idv dv : V) (s e : Z) (f : atree) (fo : V) : bool :=
+  let cs := map fst (a_es f) in
   match fo with
   | VL [idv'; dv'; csv; VL [VZ lo; VZ hi]; ia; io] =>
     V_eqb idv idv' && V_eqb dv dv'           (* the fiber reports its rank's id and default *)
     && V_eqb (Vl VZ cs) csv                  (* the data is the data *)
+    && (Z.eqb lo (fst (expect_active s f)) && Z.eqb hi (snd (expect_active s f)))
     && forallb (fun c => coord_ok s lo hi c && (c <? e)) cs
     && V_eqb ia io                           (* iterActive = iterOccupancy *)
   | _ => false
@@ -259,7 +266,7 @@ Definition level_ok (ids : list rid) (d : Z) (t : atree) (rep est : list Z) (l :
   | VL [idv; dv; VL fos], Some r =>
     V_eqb idv (V_rid r)
     && V_eqb dv (V_dflt (Nat.eqb (S l) (length ids)) d)
-    && forallb2 (fun f fo => fiber_ok idv dv (nth l rep 0) (nth l est 0) (map fst (a_es f)) fo)
+    && forallb2 (fun f fo => fiber_ok idv dv (nth l rep 0) (nth l est 0) f fo)
                 (alevel l t) fos
   | _, _ => false
   end.
